@@ -1,6 +1,6 @@
 (* C08 - API misuse and sampler failures surface as errors, never panics or stale answers. *)
 From Coq Require Import ZArith NArith List Bool Floats.
-From OX Require Import Numerics.FloatBits Planners.Model Proofs.NoPanic Proofs.ApiStruct Proofs.Final Proofs.PrmInv Proofs.PrmTotal Proofs.StarNoHang.
+From OX Require Import Numerics.FloatBits Planners.Model Proofs.NoPanic Proofs.ApiStruct Proofs.Final Proofs.PrmInv Proofs.PrmTotal Proofs.StarNoHang Proofs.PrmNoPanic.
 Import ListNotations.
 
 Section C08.
@@ -77,6 +77,13 @@ Theorem C08_prm_query_always_returns : forall b p v rm,
   prm_query dist interp lvs valid goal starts radius b p v rm <> RHang.
 Proof. exact (prm_query_total dist interp lvs valid goal starts radius). Qed.
 
+(* ... and over whole histories: with a total uniform sampler and non-empty start lists no PRM call (setup,
+   set_problem_definition, construct_roadmap, solve) ever panics or fails to return *)
+Theorem C08_prm_never_panics :
+  (forall g pos, exists q c, usample g pos = (Some q, c)) -> (forall p, starts p <> []) ->
+  forall seeded cs s rs, run prm_step (new_planner seeded) cs = (s, rs) -> Forall returns_normally rs.
+Proof. exact (prm_never_panics dist interp lvs valid goal starts usample radius). Qed.
+
 End C08.
 
 (* Outside [well_formed] the faithful model (and the code) panics: the three classes recorded as
@@ -112,6 +119,7 @@ Print Assumptions C08_rrtconnect_never_panics.
 Print Assumptions C08_rrtstar_never_panics.
 Print Assumptions C08_rrtstar_never_hangs.
 Print Assumptions C08_prm_query_always_returns.
+Print Assumptions C08_prm_never_panics.
 Print Assumptions C08_refuted_sampler_fault.
 Print Assumptions C08_refuted_bias_out_of_range.
 Print Assumptions C08_refuted_empty_start.
